@@ -340,7 +340,7 @@ func init() {
 	register(&Check{ID: "C13", QuickBud: 110 * time.Second, ThorBud: 30 * time.Minute,
 		Run: func(c *ev.Ctx) {
 			c.Rule = "differential explicit-state search on the real PocketCoreApp: every base history of D blocks over a menu in which state changes follow reads (application edit-stake / transfer / unstake, node edit-stake / unstake, each also with a node restart before the block so that the object caches are cold) x every position x {before BeginBlock, after Commit} x every off-chain read (application / node / account queries at the latest and at older heights); the replica that served the call must report the same per-transaction results, validator updates and app hash for every block as the silent replica. Non-trivial = distinct (history, insertion)"
-			c.Assume("dispatch and relay calls are exercised by the relay checks (C34/C35) and, for cache effects on claims, by C32; this check covers queries at any height and restarts")
+			c.Assume("a second search covers the servicer-side calls: dispatch and relay (which fill the session cache that claim validation consults) inserted into histories of jailing, edit-stake and claims")
 			re := func(b BlockSpec) BlockSpec { b.Restart = true; return b }
 			editApp := blk(tx("app_stake", "P1", "value", "3000000", "chains", "0001+0002"))
 			editNode := blk(tx("node_stake", "N2", "node", "N2", "value", "3000000", "output", "N2", "chains", "0002"))
@@ -350,6 +350,16 @@ func init() {
 				cfg.Depth, cfg.MaxIns = 3, 2
 			}
 			chainDiffExplore(c, cfg)
+			// servicer-side calls: dispatch and relay fill the node's session cache, which claim validation consults
+			env := claimsEnv()
+			smenu := []BlockSpec{{}, {Absent: []string{"N1"}}, blk(tx("claim", "N1", "session", "cur-1")), blk(tx("claim", "N2", "session", "cur-1")),
+				blk(tx("node_stake", "N2", "node", "N2", "value", "2000000", "output", "N2", "chains", "0002"))}
+			if c.Tier == "thorough" {
+				smenu = append(smenu, blk(tx("node_unjail", "N1", "node", "N1", "as", "N1")), blk(tx("node_unstake", "N2")), blk(tx("app_stake", "P1", "value", "2000000", "chains", "0002")))
+			}
+			sprobes := []Probe{{Kind: "dispatch", Args: map[string]string{"app": "P1", "chain": "0001"}}, {Kind: "relay", Args: map[string]string{"entropy": "5"}}}
+			scfg := &chainDiffCfg{Name: "offchain-sessions", Env: env, Menu: smenu, Depth: 4, Probes: sprobes, Phases: []string{"pre", "post"}, MaxIns: 1}
+			chainDiffExplore(c, scfg)
 			getPool().Close()
 		},
 		Replay: diffReplayFn,
